@@ -4,6 +4,7 @@ pub mod shadowsocks;
 pub mod vmess;
 
 use std::fmt::Debug;
+use std::future::Future;
 use std::marker::PhantomData;
 use std::pin::Pin;
 use std::task::Context;
@@ -171,18 +172,23 @@ where
     }
 }
 
+type Stopped = Pin<Box<dyn Future<Output = Result<Option<quinn::VarInt>, quinn::StoppedError>> + Send + Sync>>;
+
 pub struct QuicStream {
     send: quinn::SendStream,
     recv: quinn::RecvStream,
+    /// set once the send side has been finished: resolves when the peer has read it to the end
+    stopped: Option<Stopped>,
 }
 
 impl QuicStream {
     pub fn new(send: quinn::SendStream, recv: quinn::RecvStream) -> Self {
-        QuicStream { send, recv }
+        QuicStream { send, recv, stopped: None }
     }
 
     pub async fn close(mut self) -> Result<()> {
-        self.send.finish()?;
+        // the sink's close may already have finished the stream
+        let _ = self.send.finish();
         match self.send.stopped().await {
             Ok(_) => Ok(()),
             Err(e) => bail!(e),
@@ -206,6 +212,15 @@ impl AsyncWrite for QuicStream {
     }
 
     fn poll_shutdown(mut self: Pin<&mut Self>, cx: &mut Context<'_>) -> Poll<Result<(), std::io::Error>> {
-        AsyncWrite::poll_shutdown(Pin::new(&mut self.send), cx)
+        // Finish the stream, then wait until the peer has read it to the end: the relay drops the
+        // connection right after this returns, and quinn discards what is still unacknowledged then.
+        if self.stopped.is_none() {
+            let _ = self.send.finish();
+            self.stopped = Some(Box::pin(self.send.stopped()));
+        }
+        match self.stopped.as_mut().map(|f| f.as_mut().poll(cx)) {
+            Some(Poll::Pending) => Poll::Pending,
+            _ => Poll::Ready(Ok(())),
+        }
     }
 }
